@@ -2367,6 +2367,25 @@ def e_contain( ctx ):
         res.ok( nsrc, sm, 'one daemon thread per accepted connection' )
     else:
         res.bad( nsrc, sm, 'server_main.thread_start', 'each connection must be served by its own started thread' )
+    # between accept() and the start of its service thread the listener asks the accepted socket NOTHING ( only .close() on the failure path ): a
+    # peer that connects and resets at once ( SO_LINGER 0 ) makes getpeername() / getsockname() / setsockopt() ... raise ENOTCONN - in the accept
+    # loop, whose `except Exception` ends the whole server.  The peer address is the one accept() returned
+    accepted = { 'conn' }
+    for a_ in ast.walk( sm ):
+        if isinstance( a_, ast.Assign ) and isinstance( a_.targets[0], ast.Tuple ) and 'acceptable' in names_in( a_.value ) and isinstance( a_.targets[0].elts[0], ast.Name ):
+            accepted.add( a_.targets[0].elts[0].id )
+    for f_ in ast.walk( sm ):
+        if isinstance( f_, ast.FunctionDef ) and f_ is not sm and f_.args.args:
+            accepted.add( f_.args.args[0].arg )
+    asks = [ c for c in ast.walk( sm ) if isinstance( c, ast.Call ) and isinstance( c.func, ast.Attribute ) and isinstance( c.func.value, ast.Name ) and c.func.value.id in accepted
+             and c.func.attr not in ( 'close', ) ]
+    asks += [ a_ for a_ in ast.walk( sm ) if isinstance( a_, ast.Attribute ) and isinstance( a_.value, ast.Name ) and a_.value.id in accepted and isinstance( a_.ctx, ast.Load )
+              and a_.attr in ( 'type', 'family', 'proto' ) and False ]
+    if asks:
+        res.bad( nsrc, asks[0], 'server_main asks the accepted connection `%s` before its service thread runs' % norm_text( asks[0] ),
+                 'for a connection the peer has already reset the call raises ( ENOTCONN ): the exception reaches the accept loop, which sets done - the listening socket closes, every session is shut down, main() returns: a burst of connect-and-abort peers ends the simulator for everybody' )
+    else:
+        res.ok( nsrc, sm, 'the listener hands the accepted connection and the address accept() returned to the service thread, asking the socket nothing' )
     # zero-count: nothing in the request-processing modules terminates the process
     scanned = 0
     hits = 0
@@ -2945,6 +2964,21 @@ def k_forwards( ctx ):
     if not stores:
         res.bad( dsrc, fo, 'forward_open', 'an accepted Forward Open is never recorded in self.forwards' )
         return res
+    # the Target PICKS the connection ID of a point-to-point O->T connection ( and of a multicast T->O one ): by value, what is stored does not
+    # depend on the ID the originator proposed - `forwards` is keyed by it, and originators ( pylogix ) propose the same constant every time
+    picks = [ a for a in ast.walk( fo ) if isinstance( a, ast.Assign ) and any( isinstance( t, ast.Attribute ) and t.attr == 'connection_ID' for t in a.targets )
+              and any( is_call_to( c, 'random.randint', 'randint', 'random.randrange', 'random.getrandbits' ) for c in ast.walk( a.value )) ]
+    if not picks:
+        res.bad( dsrc, fo, 'forward_open picks no connection ID', 'the target of a point-to-point connection assigns its connection ID' )
+    for a in picks:
+        tgt = dotted( a.targets[0] )
+        vals = [ try_fold( a.value, { tgt: proposed, 'random.randint': lambda *x: 'PICKED', 'randint': lambda *x: 'PICKED', 'random.randrange': lambda *x: 'PICKED', 'random.getrandbits': lambda *x: 'PICKED' }, default='?' )
+                 for proposed in ( 0, 0x20000002, None ) ]
+        if vals == [ 'PICKED' ] * 3:
+            res.ok( dsrc, a, '%s is picked by the target whatever the originator proposed' % tgt )
+        else:
+            res.bad( dsrc, a, '%s = %s keeps the ID the originator proposed ( %r for proposals 0, 0x20000002, None )' % ( tgt, norm_text( a.value ), vals ),
+                     'two Forward Opens on one session that propose the same non-zero ID ( pylogix always proposes 0x20000002 ) collide in `forwards`: the second is refused 0x08 as "an incompatible Forward Open", or the two connections silently share one ID' )
     ld = LocalDefs( fo )
     key = stores[0].targets[0].slice
     kdefs = [ key ] if isinstance( key, ast.Tuple ) else ld.defs.get( dotted( key ), [] )
